@@ -266,8 +266,9 @@ func loadSubject(root string, w *worldFile, k int, seed uint64, quick bool) (*su
 	return s, muts, nil
 }
 
-// enumOptsFor: the first subjects of a run get the full enumeration (every truncation
-// length, every structural bit); later ones a deterministic sub-sample.
+// enumOptsFor: thorough enumerates every truncation length of every subject and every
+// second structural bit; quick does every truncation length of the first subject and
+// deterministic sub-samples of the rest.
 func enumOptsFor(k int, quick bool) enumOpts {
 	if quick {
 		if k == 0 { // every truncation length
@@ -275,7 +276,7 @@ func enumOptsFor(k int, quick bool) enumOpts {
 		}
 		return enumOpts{truncEvery: 16, flipStruct: 48, flipElse: 16, splices: 40, swaps: 8, idxPerTable: 1, metaFlip: 64, metaTrunc: 12, light: true, lenEvery: 2}
 	}
-	return enumOpts{truncEvery: 1, flipStruct: 1, flipElse: 1, splices: 600, swaps: 150, idxPerTable: 8, metaFlip: 1, metaTrunc: 1, lenEvery: 1}
+	return enumOpts{truncEvery: 1, flipStruct: 2, flipElse: 1, splices: 300, swaps: 100, idxPerTable: 6, metaFlip: 3, metaTrunc: 1, lenEvery: 1}
 }
 
 func describe(m *mutation, orig []byte) map[string]any {
